@@ -261,9 +261,10 @@ func (ic *importClient) Shutdown() {
 	}
 	defer ic.c.tasks.Done()
 	ent := ic.c.imports[ic.id]
-	if ic.generation != ent.generation {
-		// A new reference was added concurrently with the Shutdown.  See
-		// impent.generation documentation for an explanation.
+	if ent == nil || ic.generation != ent.generation {
+		// A new reference was added concurrently with the Shutdown (see
+		// impent.generation documentation for an explanation), or the
+		// entry has already been removed and released.
 		ic.c.mu.Unlock()
 		return
 	}
